@@ -1,13 +1,15 @@
 import IstioModel.C10.Theorems
+import IstioModel.C10.Inbound
 
 /-!
 # C10 - property theorems, part 2: the generated inbound configuration enforces the mode
 
-Model of `getFilterChainMatchOptions` (pilot/pkg/networking/core/filterchain_options.go) together
-with `FilterChainMatchOptions.ToTransportSocket` / `BuildInboundTLS`: for an mTLS mode and a listener
+The model (`Inbound.lean`) of `getFilterChainMatchOptions` together with
+`FilterChainMatchOptions.ToTransportSocket` / `BuildInboundTLS` gives, for an mTLS mode and a listener
 protocol, the list of inbound filter chains as (transport_protocol match, terminates TLS?, HTTP or
 TCP proxy, ALPN class, transport socket).  `GenTie.lean` proves this table equal to the one the
-harness regenerates from the real functions on every run.
+harness regenerates from the real functions on every run; the stream `inbound` compares the model of
+the whole virtualInbound listener with the listener the real LDS generator builds.
 
 Envoy semantics used (from the Envoy documentation, not observed): a connection is handed to a
 filter chain whose `filter_chain_match.transport_protocol` equals what the TLS inspector detected
@@ -17,85 +19,6 @@ the handshake only with a client certificate (mutual TLS); a chain without trans
 terminate TLS.
 -/
 namespace IstioModel.C10
-
-/-- `networking.ListenerProtocol`. -/
-inductive LProto
-  | unknown | tcp | http | auto
-  deriving DecidableEq, Repr
-
-def LProto.all : List LProto := [.unknown, .tcp, .http, .auto]
-def MTLS.all : List MTLS := [.unknown, .disable, .permissive, .strict]
-
-/-- ALPN class of a chain's `application_protocols`. -/
-inductive Alpn
-  | any          -- no application_protocols match
-  | istio        -- only Istio mTLS ALPNs (istio, istio-peer-exchange, istio-http/1.x, istio-h2)
-  | plain        -- plaintext HTTP ALPNs
-  deriving DecidableEq, Repr
-
-/-- Transport socket of the chain. -/
-inductive Sock
-  | none         -- no DownstreamTlsContext: TLS is not terminated
-  | tls          -- DownstreamTlsContext without require_client_certificate
-  | mtls         -- DownstreamTlsContext with require_client_certificate
-  deriving DecidableEq, Repr
-
-/-- One `FilterChainMatchOptions` plus its transport socket. -/
-structure Chain where
-  transportTLS : Bool      -- filter_chain_match.transport_protocol = "tls" (else "raw_buffer")
-  terminate    : Bool      -- `TLS` field: this chain should terminate TLS
-  http         : Bool      -- HTTP connection manager (else TCP proxy)
-  alpn         : Alpn
-  sock         : Sock
-  deriving DecidableEq, Repr
-
-/-- `ToTransportSocket` + `BuildInboundTLS`: nil for DISABLE/UNKNOWN, else a context requiring a
-    client certificate. -/
-def sockFor (mode : MTLS) (terminate : Bool) : Sock :=
-  if terminate then
-    match mode with
-    | .disable | .unknown => .none
-    | _ => .mtls
-  else .none
-
-def mk (mode : MTLS) (transportTLS terminate http : Bool) (alpn : Alpn) : Chain :=
-  { transportTLS := transportTLS, terminate := terminate, http := http, alpn := alpn,
-    sock := sockFor mode terminate }
-
-/-- `getFilterChainMatchOptions`. -/
-def chains (mode : MTLS) (proto : LProto) : List Chain :=
-  match proto with
-  | .http =>
-    match mode with
-    | .strict => [mk mode true true true .any]
-    | .permissive => [mk mode true true true .istio, mk mode false false true .any]
-    | _ => [mk mode false false true .any]
-  | .auto =>
-    match mode with
-    | .strict => [mk mode true true true .istio, mk mode true true false .any]
-    | .permissive =>
-      [mk mode true true true .istio, mk mode false false true .plain, mk mode true true false .istio,
-       mk mode false false false .any, mk mode true false false .any]
-    | _ => [mk mode false false true .plain, mk mode false false false .any]
-  | _ =>
-    match mode with
-    | .strict => [mk mode true true false .any]
-    | .permissive => [mk mode true true false .istio, mk mode true false false .any, mk mode false false false .any]
-    | _ => [mk mode false false false .any]
-
-/-! ## What a chain does with a connection -/
-
-/-- A chain accepts plaintext: it matches `raw_buffer`. -/
-def Chain.acceptsPlaintext (c : Chain) : Bool := !c.transportTLS
-
-/-- A chain terminates TLS (of any kind). -/
-def Chain.terminatesTLS (c : Chain) : Bool := c.sock != .none
-
-/-- A chain completes a TLS handshake without a client certificate (one-way TLS termination). -/
-def Chain.terminatesOneWayTLS (c : Chain) : Bool := c.sock == .tls
-
-/-- A chain terminates Istio mutual TLS. -/
-def Chain.terminatesMTLS (c : Chain) : Bool := c.transportTLS && c.sock == .mtls
 
 /-! ## inbound_enforces -/
 
